@@ -35,6 +35,8 @@ type Config struct {
 	Trace     bool
 }
 
+const uncheckedTag = int64(-0x7ead0001)
+
 type pathEnd struct {
 	Kind string // "done","assume","unwind","unsupported","panic","blocked","steps"
 	Msg  string
@@ -108,6 +110,10 @@ type Machine struct {
 	concIdx     int
 	ufPoints    map[string][]ufPoint
 	inInit      int
+	sd          *smallDom
+	model       map[*smt.Term]*smt.Term // last satisfying assignment of the nondets, valid for the current pc
+	modelMemo   map[*smt.Term]*smt.Term
+	ModelHits   int
 	pcSet       map[*smt.Term]bool
 	usedUF      bool
 	s256obj     *Object
@@ -131,7 +137,7 @@ func NewMachine(p *Program, cfg Config, sol *smt.Solver) *Machine {
 		cfg.Mode = "bv"
 	}
 	if cfg.BigW == 0 {
-		cfg.BigW = 256
+		cfg.BigW = 320
 	}
 	if cfg.Unwind == 0 {
 		cfg.Unwind = 8
@@ -184,6 +190,8 @@ func (m *Machine) RunPath(entry *ssa.Function, prefix []int64, pushAlt func([]in
 		m.initDone = map[*ssa.Package]bool{}
 	}
 	m.mapSaved = map[*MapObj]bool{}
+	m.sd = nil
+	m.model, m.modelMemo = nil, nil
 	m.pcSet = map[*smt.Term]bool{}
 	m.usedUF = false
 	m.decCache = nil
@@ -303,6 +311,9 @@ func (m *Machine) assumeRaw(t *smt.Term) {
 	}
 	m.pc = append(m.pc, t)
 	m.notePC(t)
+	if m.model != nil && !m.modelSays(t) {
+		m.model = nil
+	}
 	if m.Sol != nil {
 		m.Sol.Assert(t)
 	}
@@ -348,7 +359,68 @@ func (m *Machine) known(t *smt.Term) int {
 	return 0
 }
 
+// modelSays: does the cached model make t true (evaluated in-process, no solver call)?
+func (m *Machine) modelSays(t *smt.Term) bool {
+	if m.model == nil {
+		return false
+	}
+	v := smt.Subst(t, m.model, m.modelMemo)
+	return v.IsConst() && v.U == 1
+}
+
+// fetchModel reads the nondet values after a sat answer (same solver scope).
+func (m *Machine) fetchModel() {
+	m.model = nil
+	if len(m.nondets) == 0 || len(m.nondets) > 96 || m.skolem > 0 {
+		return
+	}
+	ts := make([]*smt.Term, len(m.nondets))
+	for i, n := range m.nondets {
+		ts[i] = n.T
+	}
+	vals, err := m.Sol.GetValues(ts)
+	if err != nil {
+		return
+	}
+	m.model = map[*smt.Term]*smt.Term{}
+	for i, n := range m.nondets {
+		if !n.T.IsConst() {
+			m.model[n.T] = vals[i]
+		}
+	}
+	m.modelMemo = map[*smt.Term]*smt.Term{}
+}
+
 func (m *Machine) feasible(t *smt.Term) bool {
+	if t.IsConst() {
+		return t.U == 1
+	}
+	if m.modelSays(t) {
+		m.ModelHits++
+		return true
+	}
+	if ans, ok := m.sdFeasible(t); ok {
+		return ans
+	}
+	m.defineNondets()
+	for _, e := range []*smt.Term{t} {
+		m.Sol.Define(e)
+	}
+	m.Sol.Push()
+	m.Sol.Assert(t)
+	r := m.Sol.Check()
+	if r == smt.Sat {
+		m.fetchModel() // valid for pc and t; stays valid for pc alone
+	}
+	m.Sol.Pop()
+	if r == smt.Unknown {
+		m.Unknowns = append(m.Unknowns, "feasibility:"+m.where())
+		return true
+	}
+	return r == smt.Sat
+}
+
+func (m *Machine) feasibleOld(t *smt.Term) bool {
 	if t.IsConst() {
 		return t.U == 1
 	}
@@ -474,11 +546,86 @@ func (m *Machine) Concretize(t *smt.Term, what string) int64 {
 		v := m.prefix[m.cursor]
 		m.cursor++
 		m.trace = append(m.trace, v)
+		if m.cursor < len(m.prefix) && m.prefix[m.cursor] == uncheckedTag {
+			// alternative that was pushed without a feasibility check
+			m.cursor++
+			m.trace = append(m.trace, uncheckedTag)
+			m.unwindCountOnly()
+			eq := smt.Eq(t, mkc(v))
+			if !m.feasible(eq) {
+				m.end("assume", "infeasible alternative of concretize")
+			}
+			m.assumeRaw(eq)
+			return v
+		}
 		m.assumeRaw(smt.Eq(t, mkc(v)))
 		m.unwindCountOnly()
 		return v
 	}
+	// table look-ups: the candidate values are the constant leaves of the ite tree
+	if constLeafIte(t, 0) <= 400 && distinctLeaves(t) <= 6 {
+		seen := map[int64]bool{}
+		var leaves []int64
+		var walk func(x *smt.Term)
+		walk = func(x *smt.Term) {
+			if x.IsConst() {
+				var v int64
+				if x.Sort.K == smt.KBV {
+					v = x.SignedVal().Int64()
+				} else {
+					v = x.BigVal().Int64()
+				}
+				if !seen[v] {
+					seen[v] = true
+					leaves = append(leaves, v)
+				}
+				return
+			}
+			walk(x.Args[1])
+			walk(x.Args[2])
+		}
+		walk(t)
+		sort.Slice(leaves, func(i, j int) bool { return leaves[i] < leaves[j] })
+		m.unwindCheck()
+		first := -1
+		for i, v := range leaves {
+			if m.feasible(smt.Eq(t, mkc(v))) {
+				first = i
+				break
+			}
+		}
+		if first < 0 {
+			m.end("assume", "infeasible at concretize")
+		}
+		for _, v := range leaves[first+1:] {
+			alt := make([]int64, len(m.trace)+2)
+			copy(alt, m.trace)
+			alt[len(m.trace)] = v
+			alt[len(m.trace)+1] = uncheckedTag
+			m.pushAlt(alt)
+		}
+		m.trace = append(m.trace, leaves[first])
+		m.assumeRaw(smt.Eq(t, mkc(leaves[first])))
+		return leaves[first]
+	}
 	m.unwindCheck()
+	if vals, ok := m.sdValues(t); ok {
+		if len(vals) == 0 {
+			m.end("assume", "infeasible at concretize")
+		}
+		if len(vals) > m.Cfg.MaxChoice {
+			m.end("unsupported", "more than %d values for %s at %s", m.Cfg.MaxChoice, what, m.where())
+		}
+		for _, v := range vals[1:] {
+			alt := make([]int64, len(m.trace)+1)
+			copy(alt, m.trace)
+			alt[len(m.trace)] = v
+			m.pushAlt(alt)
+		}
+		m.trace = append(m.trace, vals[0])
+		m.assumeRaw(smt.Eq(t, mkc(vals[0])))
+		return vals[0]
+	}
 	var found []int64
 	m.Sol.Push()
 	m.Sol.Define(t)
@@ -826,8 +973,8 @@ func (m *Machine) allocGlobal(g *ssa.Global) *Object {
 var skipInitPkgs = map[string]bool{
 	"runtime": true, "os": true, "syscall": true, "reflect": true, "internal/reflectlite": true,
 	"fmt": true, "log": true, "time": true, "sync": true, "unicode": true, "net": true, "io": true,
-	"github.com/massnetorg/mass-core/logging": true, "math/big": true, "math": true, "strconv": true, "crypto/elliptic": true,
-	"crypto/internal/nistec": true, "encoding/base64": true, "errors": true,
+	"github.com/massnetorg/mass-core/logging": true, "math/big": true, "crypto/elliptic": true,
+	"crypto/internal/nistec": true,
 }
 
 var skipInitPrefixes = []string{
@@ -835,7 +982,7 @@ var skipInitPrefixes = []string{
 	"net/", "crypto/tls", "crypto/x509", "github.com/spf13/", "golang.org/x/net/", "golang.org/x/text/", "golang.org/x/sys/",
 	"vendor/", "internal/", "runtime/", "encoding/json", "encoding/xml", "html", "mime", "text/template", "regexp", "compress/",
 	"github.com/syndtr/goleveldb", "github.com/tecbot/", "github.com/rs/", "github.com/btcsuite/go-flags", "github.com/btcsuite/winsvc",
-	"massnet.org/mass-wallet/api/proto", "massnet.org/mass-wallet/config", "github.com/massnetorg/mass-core/p2p", "github.com/massnetorg/mass-core/netsync",
+	"massnet.org/mass-wallet/api/proto", "github.com/massnetorg/mass-core/p2p", "github.com/massnetorg/mass-core/netsync",
 }
 
 func skipInit(path string) bool {
@@ -857,16 +1004,32 @@ func (m *Machine) ensureInit(p *ssa.Package) {
 		return
 	}
 	m.initDone[p] = true
+	initFn := p.Func("init")
+	skipped := initFn != nil && len(initFn.Blocks) > 0 && skipInit(p.Pkg.Path())
+	zeros := map[*ssa.Global]Value{}
 	for _, mem := range p.Members {
 		if g, ok := mem.(*ssa.Global); ok {
 			if _, have := m.globals[g]; !have {
-				m.allocGlobal(g)
+				o := m.allocGlobal(g)
+				if skipped && g.Name() != "init$guard" {
+					// never silently zero: a global whose initialiser is not run is poison
+					o.Val = Poison{"global " + g.String() + " of a package whose initialiser is skipped by the engine"}
+				}
+				zeros[g] = o.Val
 			}
 		}
 	}
-	initFn := p.Func("init")
-	if initFn == nil || len(initFn.Blocks) == 0 || skipInit(p.Pkg.Path()) {
+	if initFn == nil || len(initFn.Blocks) == 0 || skipped {
 		return
+	}
+	poisonRest := func(why string) {
+		for g, z := range zeros {
+			if o := m.globals[g]; o != nil && sameValue(o.Val, z) && g.Name() != "init$guard" {
+				if _, isP := z.(Poison); !isP {
+					o.Val = Poison{"global " + g.String() + ": " + why}
+				}
+			}
+		}
 	}
 	// Special-case: big-table packages are skipped unless needed (errors.New-style inits are cheap).
 	saveFrame := m.curFrame
@@ -878,6 +1041,7 @@ func (m *Machine) ensureInit(p *ssa.Package) {
 					m.InitNotes = append(m.InitNotes, fmt.Sprintf("init of %s: engine panic: %v", p.Pkg.Path(), r))
 					m.curFrame = saveFrame
 					m.depth = saveDepth
+					poisonRest("package initialiser aborted")
 					return
 				}
 				if pe, ok := r.(pathEnd); ok && pe.Kind == "unsupported" {
@@ -885,6 +1049,7 @@ func (m *Machine) ensureInit(p *ssa.Package) {
 					m.InitNotes = append(m.InitNotes, "init of "+p.Pkg.Path()+" incomplete: "+pe.Msg)
 					m.curFrame = saveFrame
 					m.depth = saveDepth
+					poisonRest("package initialiser aborted")
 					return
 				}
 				panic(r)
@@ -896,4 +1061,66 @@ func (m *Machine) ensureInit(p *ssa.Package) {
 		defer func() { m.inInit--; m.initTop = saveTop }()
 		m.call(FuncVal{Fn: initFn}, nil, nil)
 	}()
+}
+
+// sameValue: identity of the engine value (pointer identity for aggregates and terms); false when unsure.
+func sameValue(a, b Value) (same bool) {
+	defer func() {
+		if recover() != nil {
+			same = false
+		}
+	}()
+	switch x := a.(type) {
+	case *smt.Term:
+		y, ok := b.(*smt.Term)
+		return ok && x == y
+	case *StructVal:
+		y, ok := b.(*StructVal)
+		return ok && x == y
+	case *ArrayVal:
+		y, ok := b.(*ArrayVal)
+		return ok && x == y
+	case *BigInt:
+		y, ok := b.(*BigInt)
+		return ok && x == y
+	case Ptr:
+		y, ok := b.(Ptr)
+		return ok && x.Obj == nil && y.Obj == nil
+	case SliceVal:
+		y, ok := b.(SliceVal)
+		return ok && x.Obj == nil && y.Obj == nil
+	case MapVal:
+		y, ok := b.(MapVal)
+		return ok && x.M == nil && y.M == nil
+	case IfaceVal:
+		y, ok := b.(IfaceVal)
+		return ok && x.T == nil && y.T == nil
+	case FuncVal:
+		y, ok := b.(FuncVal)
+		return ok && x.Fn == nil && y.Fn == nil && x.Intr == nil && y.Intr == nil
+	case StrVal:
+		y, ok := b.(StrVal)
+		return ok && x.Len() == 0 && y.Len() == 0
+	}
+	return false
+}
+
+func distinctLeaves(t *smt.Term) int {
+	seen := map[string]bool{}
+	var walk func(x *smt.Term)
+	walk = func(x *smt.Term) {
+		if len(seen) > 16 {
+			return
+		}
+		if x.IsConst() {
+			seen[x.BigVal().String()] = true
+			return
+		}
+		if x.Op == smt.OIte {
+			walk(x.Args[1])
+			walk(x.Args[2])
+		}
+	}
+	walk(t)
+	return len(seen)
 }
